@@ -468,11 +468,11 @@ func patchPar1(b []byte, muts []c19Mut, isVolume bool, volNo int) []byte {
 			put(96+16, valueOf(m.Value, get(96+16), shard))
 		case "ent.name_lone_surrogate":
 			// the last UTF-16 code unit of the first entry's name becomes an unpaired high surrogate
-			if eb := get(96); eb >= 58 && 96+int(eb) <= len(out) {
+			if eb := get(96); eb >= 58 && len(out) >= 96 && eb <= uint64(len(out)-96) { // eb may itself be a mutated, huge value
 				out[96+int(eb)-2], out[96+int(eb)-1] = 0x00, 0xD8
 			}
 		case "ent.name_lone_low_surrogate":
-			if eb := get(96); eb >= 58 && 96+int(eb) <= len(out) {
+			if eb := get(96); eb >= 58 && len(out) >= 96 && eb <= uint64(len(out)-96) { // eb may itself be a mutated, huge value
 				out[96+int(eb)-2], out[96+int(eb)-1] = 0x00, 0xDC
 			}
 		case "ent.hash":
